@@ -73,6 +73,18 @@ class C12(Plugin):
         out.append({"k": 1, "calls": [["parse", "<!DOCTYPE html><pre>&;", {"strict": 1}],
                                       ["parse", "<!DOCTYPE html><p>\nx", {}]]})
         out.append({"k": 1, "calls": [["parse", "<table>abcdefghij", {"fail_after": 2}], ["parse", "<table> <tr>", {}]]})
+        # module-level entity trie: a failed two-letter probe followed, in a LATER parse, by references with the same
+        # first letter
+        for first, second in (("<a href='?x=1&id=3'>x</a>", "<p>&iacute;ndice, &icirc;le</p>"), ("x &ax y", "&amp;&aacute;"),
+                              ("<p>&ny=2", "<p title='&nbsp;&not;'>&nu;"), ("&zz", "&zwj;&zeta;"), ("&Ux;", "&Uuml;&Uacute;"),
+                              ("&lx", "&lt;b&gt;&lambda;")):
+            out.append({"k": 1, "calls": [["parse", first, {}], ["parse", second, {}]]})
+            out.append({"k": 1, "calls": [["parseFragment", first, {}], ["parse", second, {}], ["parseFragment", second, {}]]})
+        # a fragment parse followed by a document parse on the same parser (the fragment flag must not survive)
+        for doc in ("<!DOCTYPE html><html><head><title>t</title></head><body><p>hello</p></body></html>",
+                    "<!DOCTYPE html><title>t</title><p>a</html>", "<!DOCTYPE html><table><tr><td>x</table></html> "):
+            for ctx in ("div", "table", "select", "html"):
+                out.append({"k": 1, "calls": [["parseFragment", "<b>x", {"container": ctx}], ["parse", doc, {}], ["parse", doc, {"strict": 1}]]})
         # module-level caches: tree builder modules requested with different keyword values, in every order,
         # each sequence in ONE fresh interpreter ("what a brand-new object in a fresh interpreter returns")
         for order in ([True, False], [False, True], [None, True, False], [True, None, False, True], [False, False, True]):
